@@ -592,7 +592,10 @@ Example ex_cancel_queued :
   let acts := [Spawn 2; Tick; Spawn 1; Tick; Cancel 1; Tick; Exit 0 false; Tick] in
   Forall valid_act acts /\
   run 2 acts = mk 2 [] [(2, Done Ok); (1, Done Canc)] [].
-Proof. cbn. split; [repeat constructor; lia | reflexivity]. Qed.
+Proof.
+  split; [|reflexivity].
+  repeat (apply Forall_cons; [cbn [valid_act]; try lia; exact I|]). apply Forall_nil.
+Qed.
 
 Example ex_cancel_granted :
   let acts := [Spawn 2; Tick; Spawn 1; Tick; Exit 0 false; Tick; Cancel 1] in
